@@ -137,7 +137,7 @@ func init() {
 		s.Budget = mc.Budget{Crashes: 1, Lag: 1}
 		add(s)
 		// Foreign pods occupying the name of attempt 0.
-		for _, kind := range []string{"noowner", "otherowner"} {
+		for _, kind := range []string{"noowner", "otherowner", "previous-incarnation", "not-controller"} {
 			for _, shape := range []string{"none", "count2"} {
 				s := jobBase(fmt.Sprintf("foreign-%s-%s", kind, shape))
 				s.Parallelism, s.ForeignPod, s.MaxAttempts = shape, kind, 2
@@ -190,6 +190,15 @@ func init() {
 		s.MaxAttempts, s.MaxFail = 2, 1
 		s.PendingTimeoutJob = i64(30)
 		s.PodActions = []string{"run", "succeed", "fail", "sched"}
+		add(s)
+		s = jobBase("none-att2-pendingtimeout-latefinish")
+		s.MaxAttempts, s.MaxFail = 2, 1
+		s.PendingTimeoutJob = i64(30)
+		s.PodActions = []string{"run", "succeed", "fail", "sched", "latefinish"}
+		add(s)
+		s = jobBase("none-att1-kill-latefinish")
+		s.PodActions = []string{"run", "succeed", "latefinish"}
+		s.Kill, s.MaxKill = []string{"0"}, 1
 		add(s)
 		s = jobBase("count2-All-att1-pendingtimeout")
 		s.Parallelism, s.Strategy, s.MaxAttempts, s.MaxFail = "count2", "AllSuccessful", 1, 1
